@@ -27,7 +27,7 @@ PROPS = {
     "C09": dict(suites=["auto", "split", "token"]),
     "C10": dict(suites=["feat"]),
     "C11": dict(suites=["bday"]),
-    "C12": dict(suites=["crypt", "kdf"]),
+    "C12": dict(suites=["crypt", "kdf"], extra=["pwnfkd"]),
     "C13": dict(suites=["seq", "seqfault", "exits"]),
     "C14": dict(suites=["split", "token", "store"], extra=["fuzzbuild"]),
     "C15": dict(suites=["seq", "seqfault", "exits"], extra=["ledger"]),
@@ -89,6 +89,7 @@ class Outcome:
         self.discharged = 0
         self.assumptions_seen = []
         self.known_printed = []
+        self.runs = []        # (label, lines, RunResult) of every suite run, for the extra predicates
 
 
 def prove(o):
@@ -145,6 +146,7 @@ def run_suite(o, cx, name, variant="asan", sgn=None, lines=None, label=None):
     if lines is None:
         lines = suites.SUITES[name](cx)
     rr = core.run_cases(lines, variant=variant, sgn=sgn)
+    o.runs.append((label, lines, rr))
     ncorr = nspec = 0
     hist = {}
     for i, case in enumerate(lines):
